@@ -207,3 +207,88 @@ package matcher
 //@   loop 1 invariant scan: scanPos(args, idx, D, V, HV, one) == k
 //@   loop 1 invariant untouched: unchanged(c.Opts)
 //@   loop 1 decreases len(args) - idx
+
+// --- option group (C01, C11, C12) -------------------------------------------------------------------------------------
+// optOK: the matcher of o succeeds on args -- by an own occurrence found by the scan, or, when there is none,
+// through the environment (ENV is the heap column Container.ValueSetFromEnv).
+//@ pure func optOK(args []string, D set[string], V array[string]*container.Container, HV array[*container.Container]any, ENV array[*container.Container]bool, o *container.Container) bool =
+//@     scanPos(args, 0, D, V, HV, o) >= 0 || ENV[o]
+// firstOK: first listed option, not excluded, whose matcher succeeds
+//@ pure rec func firstOK(opts []*container.Container, j int, args []string, D set[string], V array[string]*container.Container, HV array[*container.Container]any, ENV array[*container.Container]bool, EX set[*container.Container]) int =
+//@     (j < 0 || j >= len(opts)) ? -1 :
+//@     (!(opts[j] in EX) && optOK(args, D, V, HV, ENV, opts[j])) ? j : firstOK(opts, j+1, args, D, V, HV, ENV, EX)
+
+//@ func (*options).try
+//@   requires wf: om != nil && om.index != nil && c != nil && c.Opts != nil && c.ExcludedOpts != nil
+//@   requires table: forall n string :: n in om.index ==> om.index[n] != nil
+//@   requires listed: forall i int :: 0 <= i && i < len(om.options) ==> om.options[i] != nil
+//@   let D = domOf(om.index)
+//@   let V = valOf(om.index)
+//@   let HV = fieldHeap(om.options[0].Value)
+//@   let off = len(args) == 0 || c.RejectOptions
+//@   let opts = om.options
+//@   let ENV = fieldHeap(om.options[0].ValueSetFromEnv)
+//@   let EX = domOf(c.ExcludedOpts)
+//@   let j = firstOK(om.options, 0, args, domOf(om.index), valOf(om.index), fieldHeap(om.options[0].Value), fieldHeap(om.options[0].ValueSetFromEnv), domOf(c.ExcludedOpts))
+//@   let k = scanPos(args, 0, domOf(om.index), valOf(om.index), fieldHeap(om.options[0].Value), om.options[firstOK(om.options, 0, args, domOf(om.index), valOf(om.index), fieldHeap(om.options[0].Value), fieldHeap(om.options[0].ValueSetFromEnv), domOf(c.ExcludedOpts))])
+//@   ensures none: (off || j < 0) ==> !result0 && result1 == args && unchanged(c.Opts) && unchanged(c.ExcludedOpts)
+//@   ensures some: !off && j >= 0 ==> result0
+//@   ensures consumed: !off && j >= 0 && k >= 0 ==> result1 == tokRem(args, k, D, V, HV, opts[j]) &&
+//@       c.Opts[opts[j]] == old(c.Opts[opts[j]]) ++ seq(tokVal(args, k, D, V, HV, opts[j])) && frame(c.Opts[opts[j]]) && (opts[j] in c.Opts)
+//@   ensures exclude-only-nonconsuming: !off && j >= 0 && k >= 0 ==> unchanged(c.ExcludedOpts)
+//@   ensures env-only: !off && j >= 0 && k < 0 ==> result1 == args && unchanged(c.Opts) && (opts[j] in c.ExcludedOpts) && frame(c.ExcludedOpts[opts[j]])
+//@   loop 1 invariant bounds: 0 <= $k && $k <= len(opts) && !off && args == args0
+//@   loop 1 invariant search: firstOK(opts, $k, args, D, V, HV, ENV, EX) == j
+//@   loop 1 invariant untouched: unchanged(c.Opts) && unchanged(c.ExcludedOpts)
+
+// --- greedy closure of try (options.Match): state = (args, EX, OD, OV) with OD/OV the domain and content of c.Opts ----
+//@ pure func tryJ(opts []*container.Container, args []string, D set[string], V array[string]*container.Container, HV array[*container.Container]any, ENV array[*container.Container]bool, EX set[*container.Container]) int = firstOK(opts, 0, args, D, V, HV, ENV, EX)
+//@ pure func tryOK(opts []*container.Container, args []string, D set[string], V array[string]*container.Container, HV array[*container.Container]any, ENV array[*container.Container]bool, EX set[*container.Container]) bool = len(args) > 0 && tryJ(opts, args, D, V, HV, ENV, EX) >= 0
+//@ pure func tryK(opts []*container.Container, args []string, D set[string], V array[string]*container.Container, HV array[*container.Container]any, ENV array[*container.Container]bool, EX set[*container.Container]) int =
+//@     scanPos(args, 0, D, V, HV, opts[tryJ(opts, args, D, V, HV, ENV, EX)])
+//@ pure func tryRem(opts []*container.Container, args []string, D set[string], V array[string]*container.Container, HV array[*container.Container]any, ENV array[*container.Container]bool, EX set[*container.Container]) []string =
+//@     tryK(opts, args, D, V, HV, ENV, EX) >= 0 ? tokRem(args, tryK(opts, args, D, V, HV, ENV, EX), D, V, HV, opts[tryJ(opts, args, D, V, HV, ENV, EX)]) : args
+//@ pure func tryEX(opts []*container.Container, args []string, D set[string], V array[string]*container.Container, HV array[*container.Container]any, ENV array[*container.Container]bool, EX set[*container.Container]) set[*container.Container] =
+//@     tryK(opts, args, D, V, HV, ENV, EX) >= 0 ? EX : store(EX, opts[tryJ(opts, args, D, V, HV, ENV, EX)], true)
+//@ pure func tryOD(opts []*container.Container, args []string, D set[string], V array[string]*container.Container, HV array[*container.Container]any, ENV array[*container.Container]bool, EX set[*container.Container], OD set[*container.Container]) set[*container.Container] =
+//@     tryK(opts, args, D, V, HV, ENV, EX) >= 0 ? store(OD, opts[tryJ(opts, args, D, V, HV, ENV, EX)], true) : OD
+//@ pure func tryOV(opts []*container.Container, args []string, D set[string], V array[string]*container.Container, HV array[*container.Container]any, ENV array[*container.Container]bool, EX set[*container.Container], OD set[*container.Container], OV array[*container.Container][]string) array[*container.Container][]string =
+//@     tryK(opts, args, D, V, HV, ENV, EX) >= 0 ?
+//@        store(OV, opts[tryJ(opts, args, D, V, HV, ENV, EX)],
+//@              (opts[tryJ(opts, args, D, V, HV, ENV, EX)] in OD ? OV[opts[tryJ(opts, args, D, V, HV, ENV, EX)]] : nil) ++
+//@              seq(tokVal(args, tryK(opts, args, D, V, HV, ENV, EX), D, V, HV, opts[tryJ(opts, args, D, V, HV, ENV, EX)]))) : OV
+//@ pure rec func grpRem(opts []*container.Container, args []string, D set[string], V array[string]*container.Container, HV array[*container.Container]any, ENV array[*container.Container]bool, EX set[*container.Container]) []string =
+//@     tryOK(opts, args, D, V, HV, ENV, EX) ? grpRem(opts, tryRem(opts, args, D, V, HV, ENV, EX), D, V, HV, ENV, tryEX(opts, args, D, V, HV, ENV, EX)) : args
+//@ pure rec func grpEX(opts []*container.Container, args []string, D set[string], V array[string]*container.Container, HV array[*container.Container]any, ENV array[*container.Container]bool, EX set[*container.Container]) set[*container.Container] =
+//@     tryOK(opts, args, D, V, HV, ENV, EX) ? grpEX(opts, tryRem(opts, args, D, V, HV, ENV, EX), D, V, HV, ENV, tryEX(opts, args, D, V, HV, ENV, EX)) : EX
+//@ pure rec func grpOD(opts []*container.Container, args []string, D set[string], V array[string]*container.Container, HV array[*container.Container]any, ENV array[*container.Container]bool, EX set[*container.Container], OD set[*container.Container]) set[*container.Container] =
+//@     tryOK(opts, args, D, V, HV, ENV, EX) ? grpOD(opts, tryRem(opts, args, D, V, HV, ENV, EX), D, V, HV, ENV, tryEX(opts, args, D, V, HV, ENV, EX), tryOD(opts, args, D, V, HV, ENV, EX, OD)) : OD
+//@ pure rec func grpOV(opts []*container.Container, args []string, D set[string], V array[string]*container.Container, HV array[*container.Container]any, ENV array[*container.Container]bool, EX set[*container.Container], OD set[*container.Container], OV array[*container.Container][]string) array[*container.Container][]string =
+//@     tryOK(opts, args, D, V, HV, ENV, EX) ? grpOV(opts, tryRem(opts, args, D, V, HV, ENV, EX), D, V, HV, ENV, tryEX(opts, args, D, V, HV, ENV, EX), tryOD(opts, args, D, V, HV, ENV, EX, OD), tryOV(opts, args, D, V, HV, ENV, EX, OD, OV)) : OV
+
+//@ func (*options).Match
+//@   requires wf: om != nil && om.index != nil && c != nil && c.Opts != nil && c.ExcludedOpts != nil
+//@   requires table: forall n string :: n in om.index ==> om.index[n] != nil
+//@   requires listed: forall i int :: 0 <= i && i < len(om.options) ==> om.options[i] != nil
+//@   let D = domOf(om.index)
+//@   let V = valOf(om.index)
+//@   let HV = fieldHeap(om.options[0].Value)
+//@   let ENV = fieldHeap(om.options[0].ValueSetFromEnv)
+//@   let opts = om.options
+//@   let rej = c.RejectOptions
+//@   let EX0 = domOf(c.ExcludedOpts)
+//@   let OD0 = domOf(c.Opts)
+//@   let OV0 = valOf(c.Opts)
+//@   let ok0 = !c.RejectOptions && tryOK(om.options, args, domOf(om.index), valOf(om.index), fieldHeap(om.options[0].Value), fieldHeap(om.options[0].ValueSetFromEnv), domOf(c.ExcludedOpts))
+//@   ensures verdict: result0 == ok0
+//@   ensures nomatch: !ok0 ==> result1 == args && unchanged(c.Opts) && unchanged(c.ExcludedOpts)
+//@   ensures rem: ok0 ==> result1 == grpRem(opts, args, D, V, HV, ENV, EX0)
+//@   ensures excluded: ok0 ==> domOf(c.ExcludedOpts) == grpEX(opts, args, D, V, HV, ENV, EX0)
+//@   ensures bound-dom: ok0 ==> domOf(c.Opts) == grpOD(opts, args, D, V, HV, ENV, EX0, OD0)
+//@   ensures bound-val: ok0 ==> valOf(c.Opts) == grpOV(opts, args, D, V, HV, ENV, EX0, OD0, OV0)
+//@   ensures frame: frameMap(c.Opts) && frameMap(c.ExcludedOpts)
+//@   loop 1 invariant st: !rej && frameMap(c.Opts) && frameMap(c.ExcludedOpts) && ok0
+//@   loop 1 invariant rem: grpRem(opts, nargs, D, V, HV, ENV, domOf(c.ExcludedOpts)) == grpRem(opts, args0, D, V, HV, ENV, EX0)
+//@   loop 1 invariant ex: grpEX(opts, nargs, D, V, HV, ENV, domOf(c.ExcludedOpts)) == grpEX(opts, args0, D, V, HV, ENV, EX0)
+//@   loop 1 invariant od: grpOD(opts, nargs, D, V, HV, ENV, domOf(c.ExcludedOpts), domOf(c.Opts)) == grpOD(opts, args0, D, V, HV, ENV, EX0, OD0)
+//@   loop 1 invariant ov: grpOV(opts, nargs, D, V, HV, ENV, domOf(c.ExcludedOpts), domOf(c.Opts), valOf(c.Opts)) == grpOV(opts, args0, D, V, HV, ENV, EX0, OD0, OV0)
